@@ -44,7 +44,7 @@ import pyarrow as pa
 
 import vgi_rpc.external as ext_mod
 import vgi_rpc.external_fetch as ef
-from lib.c31_fake import FakeClient, Origin, VirtualLoop, encode, host_scheme, make_payload
+from lib.c31_fake import FakeClient, NoProgress, Origin, SpinGuard, VirtualLoop, encode, host_scheme, make_payload
 from lib.harness import Check, Outcome
 
 PROPERTY = "C31"
@@ -253,6 +253,8 @@ def run_case(case: dict[str, Any]) -> Outcome:
     result: bytes | None = None
     error: BaseException | None = None
     validator = make_validator(vspec)
+    guard = SpinGuard()
+    guard.__enter__()  # left in the finally blocks below
     if via == "probe":
         try:
             asyncio.set_event_loop(loop)
@@ -261,9 +263,12 @@ def run_case(case: dict[str, Any]) -> Outcome:
                 result = loop.run_until_complete(coro)
             except asyncio.CancelledError as e:
                 error = e
+            except NoProgress as e:
+                error = e
             except Exception as e:
                 error = e
         finally:
+            guard.__exit__(None, None, None)
             ef.time = old_time
             root.removeHandler(cap)
             root.setLevel(old_level)
@@ -315,6 +320,7 @@ def run_case(case: dict[str, Any]) -> Outcome:
             except BaseException as e:  # concurrent.futures.CancelledError after a stall
                 error = e
         finally:
+            guard.__exit__(None, None, None)
             ef.time = old_time
             ext_mod.time = old_ext_time
             ef._create_session = old_create  # type: ignore[assignment]
@@ -334,8 +340,15 @@ def run_case(case: dict[str, Any]) -> Outcome:
     path = "parallel" if origin.kind_counts.get("chunk") else "single"
     probe = "range" if presigned(u["query"]) else "head"
 
+    # O7' proven non-termination of the decode loop
+    if guard.spun:
+        out.fail(
+            "decode_never_terminates/gzip_trailing_bytes",
+            f"content decoding entered an infinite loop ({guard.spun}); encoded body {n} bytes + trailing bytes, coding={ce}",
+        )
+
     # O7 stall
-    if loop.stalled:
+    if loop.stalled and not guard.spun:
         out.fail(f"stall/{probe}/{path}", f"fetch can no longer make progress (no runnable task, no timer) after {len(log)} requests")
 
     # O1 validator
@@ -418,7 +431,7 @@ def run_case(case: dict[str, Any]) -> Outcome:
 
     # O5 liveness for a fully honest origin
     benign = _benign(case, script, u, vspec, config, n, len(acceptable_for_benign(D, E, ce_header, script)), eff_decomp)
-    if benign and result is None and not loop.stalled:
+    if benign and result is None and not loop.stalled and not guard.spun:
         out.fail(
             f"honest_origin_failed/{probe}/{path}/{type(error).__name__}",
             f"origin was fully honest and within every limit, yet the fetch raised {type(error).__name__}: "
@@ -426,7 +439,7 @@ def run_case(case: dict[str, Any]) -> Outcome:
         )
 
     # O6 secrets
-    sites = leak_sites(error) if error is not None and not isinstance(error, asyncio.CancelledError) else []
+    sites = leak_sites(error) if error is not None and not isinstance(error, (asyncio.CancelledError, NoProgress)) else []
     if sites:
         from_validator = isinstance(error, ValueError) and "URL rejected" in _safe(str, error) and vspec is not None
         out.fail(
